@@ -12,6 +12,7 @@ import (
 
 	"github.com/twmb/franz-go/pkg/kmsg"
 
+	metadatapb "github.com/KafScale/platform/pkg/gen/metadata"
 	"github.com/KafScale/platform/pkg/metadata"
 	"github.com/KafScale/platform/pkg/protocol"
 	"github.com/KafScale/platform/pkg/storage"
@@ -250,4 +251,81 @@ func (b *vsymBroker) vsymFetch(req *kmsg.FetchRequest) map[vsymTP]vsymFetched {
 		}
 	}
 	return res
+}
+
+// vsymMonStore counts every mutating metadata.Store call that reaches the store.
+type vsymMonStore struct {
+	*metadata.InMemoryStore
+	mutations []string
+}
+
+func (s *vsymMonStore) note(op string) { s.mutations = append(s.mutations, op) }
+func (s *vsymMonStore) UpdateOffsets(ctx context.Context, topic string, partition int32, lastOffset int64) error {
+	s.note("UpdateOffsets")
+	return s.InMemoryStore.UpdateOffsets(ctx, topic, partition, lastOffset)
+}
+func (s *vsymMonStore) CommitConsumerOffset(ctx context.Context, group, topic string, partition int32, offset int64, md string) error {
+	s.note("CommitConsumerOffset")
+	return s.InMemoryStore.CommitConsumerOffset(ctx, group, topic, partition, offset, md)
+}
+func (s *vsymMonStore) PutConsumerGroup(ctx context.Context, g *metadatapb.ConsumerGroup) error {
+	s.note("PutConsumerGroup")
+	return s.InMemoryStore.PutConsumerGroup(ctx, g)
+}
+func (s *vsymMonStore) DeleteConsumerGroup(ctx context.Context, id string) error {
+	s.note("DeleteConsumerGroup")
+	return s.InMemoryStore.DeleteConsumerGroup(ctx, id)
+}
+func (s *vsymMonStore) UpdateTopicConfig(ctx context.Context, cfg *metadatapb.TopicConfig) error {
+	s.note("UpdateTopicConfig")
+	return s.InMemoryStore.UpdateTopicConfig(ctx, cfg)
+}
+func (s *vsymMonStore) CreatePartitions(ctx context.Context, topic string, n int32) error {
+	s.note("CreatePartitions")
+	return s.InMemoryStore.CreatePartitions(ctx, topic, n)
+}
+func (s *vsymMonStore) CreateTopic(ctx context.Context, spec metadata.TopicSpec) (*protocol.MetadataTopic, error) {
+	s.note("CreateTopic")
+	return s.InMemoryStore.CreateTopic(ctx, spec)
+}
+func (s *vsymMonStore) DeleteTopic(ctx context.Context, name string) error {
+	s.note("DeleteTopic")
+	return s.InMemoryStore.DeleteTopic(ctx, name)
+}
+
+// vsymNewMonBroker: like vsymNewBroker, with the store behind the mutation monitor.
+func vsymNewMonBroker() (*vsymBroker, *vsymMonStore) {
+	vsymPinClockB()
+	b := &vsymBroker{s3: newVsymMonS3()}
+	info := protocol.MetadataBroker{NodeID: 1, Host: "b1", Port: 9092}
+	b.store = metadata.NewInMemoryStore(metadata.ClusterMetadata{
+		Brokers:      []protocol.MetadataBroker{info},
+		ControllerID: 1,
+		Topics:       []protocol.MetadataTopic{vsymTopic("t0", 2), vsymTopic("t1", 1)},
+	})
+	mon := &vsymMonStore{InMemoryStore: b.store}
+	b.h = newHandler(mon, b.s3, info, slog.New(slog.NewTextHandler(io.Discard, nil)))
+	return b, mon
+}
+
+// vsymCall sends any request through Handle as the given client id and decodes the reply with
+// the standard codec at the request's version.
+func (b *vsymBroker) vsymCall(client string, req kmsg.Request) kmsg.Response {
+	cid := client
+	hdr := &protocol.RequestHeader{APIKey: req.Key(), APIVersion: req.GetVersion(), CorrelationID: 4711, ClientID: &cid}
+	out, err := b.h.Handle(context.Background(), hdr, req)
+	vsym_Assert(err == nil, "broker/handle-no-error")
+	if out == nil {
+		return nil
+	}
+	vsym_Assert(len(out) >= 4 && int32(binary.BigEndian.Uint32(out[:4])) == 4711, "broker/correlation-id-echoed")
+	resp := req.ResponseKind()
+	resp.SetVersion(req.GetVersion())
+	body := out[4:]
+	if resp.IsFlexible() && req.Key() != 18 {
+		vsym_Assert(len(body) >= 1 && body[0] == 0, "broker/flexible-response-header")
+		body = body[1:]
+	}
+	vsym_Assert(resp.ReadFrom(body) == nil, "broker/reply-decodes-at-request-version")
+	return resp
 }
